@@ -118,14 +118,14 @@ _add(PropertySpec(
 ))
 
 _add(PropertySpec(
-    "C02", files=["compute_super"],
-    targets=[f"{SUB}:subseq_complete", f"{SUB}:mask_from_subseq", f"{SUB}:subseq_from_mask", f"{SUB}:subseq_segment_dist",
+    "C02", files=["compute_super", "ordered"],
+    targets=["superrec2.compute.super_reconciliation:_make_prec_graph", f"{SUB}:subseq_complete", f"{SUB}:mask_from_subseq", f"{SUB}:subseq_from_mask", f"{SUB}:subseq_segment_dist",
              f"{MRC}:SuperReconciliationOutput._ordered_labeling_cost", f"{MRC}:SuperReconciliationOutput.cost"],
     level="exploration", standins=["ordered-solvers:optimum-vs-brute-force", "spfs-entry:recurrence-contract-at-runtime", "gain-sets-required-sets-precedence-graph:contracts-at-runtime"],
     technique="bounded stand-in (both ordered solvers against an independent optimum over every species mapping, root order and labelling) plus "
               "contract-based deductive verification of the callees the solver's correctness rests on (mask / segment-distance functions, ordered labelling cost); "
               "the SPFS table contracts are not discharged",
-    not_decided=["Bellman contract of _compute_spfs_entry, _compute_spfs_table, _decode_spfs_table, _make_prec_graph, _spfs and the two wrappers: NOT discharged, bounded stand-in only",
+    not_decided=["Bellman contract of _compute_spfs_entry, _compute_spfs_table, _decode_spfs_table, _spfs and the two wrappers: NOT discharged, bounded stand-in only",
                  "root orders come from toposort_all (C19: bounded only)"],
 ))
 _add(PropertySpec(
